@@ -84,9 +84,16 @@ def gen_history(rng, uni, length, n_tids, n_codes, p_trace=0.3):
         elif r < 0.75:
             pool.append(rng.choice(uni.plain_decodable))
         elif r < 0.9:
-            pool.append(rng.choice(uni.undecoded))
+            # known to the code table but without a decoder; every third one of the class of the trace-domain codes
+            same_class = [c for c in uni.undecoded if c >> 24 == 7]
+            pool.append(rng.choice(same_class) if same_class and rng.random() < 0.35 else rng.choice(uni.undecoded))
         else:
-            pool.append(uni.unknown(rng))
+            c = uni.unknown(rng)
+            if rng.random() < 0.35:
+                c = 0x07000000 | (c & 0x00fffffc)         # unknown to the table, class of the trace-domain codes
+                if c in uni.codes:
+                    c = uni.unknown(rng)
+            pool.append(c)
     hist = []
     for _ in range(length):
         tid = rng.choice(tids)
